@@ -641,6 +641,9 @@ pub struct GenCfg {
     pub backends: bool,
     pub docs: bool,
     pub flags: bool,
+    /// Size outlier: one dimension (fields, virtual functions, enum variants, impl functions,
+    /// extern values, backend blocks) is an order of magnitude larger than usual.
+    pub outlier: usize,
 }
 
 impl GenCfg {
@@ -663,6 +666,7 @@ impl GenCfg {
             backends: rng.chance(1, 2),
             docs: rng.chance(1, 2),
             flags: rng.chance(1, 2),
+            outlier: if rng.chance(1, 10) { rng.range(1, 6) } else { 0 },
         }
     }
 }
@@ -853,7 +857,11 @@ impl<'a> Gen<'a> {
         let base = *self
             .rng
             .pick(&["u8", "u16", "u32", "u64", "i8", "i16", "i32", "i64"]);
-        let n = self.rng.range(1, 6);
+        let n = if self.cfg.outlier == 3 && self.rng.chance(1, 2) {
+            self.rng.range(21, 60)
+        } else {
+            self.rng.range(1, 6)
+        };
         let mut variants = vec![];
         let mut next: i64 = if base.starts_with('i') && self.rng.chance(1, 3) {
             -(self.rng.below(4) as i64)
@@ -977,7 +985,11 @@ impl<'a> Gen<'a> {
                 cc: None,
                 doc: None,
             };
-            let extra = self.rng.range(0, 3);
+            let extra = if self.cfg.outlier == 2 && self.rng.chance(1, 3) {
+                self.rng.range(21, 40)
+            } else {
+                self.rng.range(0, 3)
+            };
             for _ in 0..extra {
                 let mut f = self.func(m, true);
                 if self.rng.chance(1, 4) {
@@ -1024,7 +1036,11 @@ impl<'a> Gen<'a> {
         let own_vftable_region = vftable.is_some() && !first_base_has_vftable;
 
         // Ordinary fields.
-        let nfields = self.rng.range(0, self.cfg.max_fields);
+        let nfields = if self.cfg.outlier == 1 && self.rng.chance(1, 3) {
+            self.rng.range(21, 48)
+        } else {
+            self.rng.range(0, self.cfg.max_fields)
+        };
         for k in 0..nfields {
             let ty = self.value_ty(m, idx, 0);
             let name = if self.rng.chance(1, 10) {
@@ -1154,7 +1170,12 @@ impl<'a> Gen<'a> {
 
         let mut impl_funcs = vec![];
         if self.pct(self.cfg.p_impl) {
-            for _ in 0..self.rng.range(1, 3) {
+            let nfuncs = if self.cfg.outlier == 4 && self.rng.chance(1, 3) {
+                self.rng.range(21, 40)
+            } else {
+                self.rng.range(1, 3)
+            };
+            for _ in 0..nfuncs {
                 impl_funcs.push(self.func(m, false));
             }
         }
@@ -1331,7 +1352,8 @@ pub fn gen_valid(rng: &mut Rng, cfg: &GenCfg, ptr: usize) -> Project {
             }
         }
         if g.cfg.extern_values {
-            for k in 0..g.rng.below(3) {
+            let nvalues = if g.cfg.outlier == 5 { g.rng.range(21, 40) } else { g.rng.below(3) };
+            for k in 0..nvalues {
                 let ty = if g.rng.chance(1, 2) {
                     g.pointer_ty(m)
                 } else {
@@ -1350,7 +1372,8 @@ pub fn gen_valid(rng: &mut Rng, cfg: &GenCfg, ptr: usize) -> Project {
             }
         }
         if g.cfg.backends {
-            for k in 0..g.rng.below(4) {
+            let nblocks = if g.cfg.outlier == 6 { g.rng.range(10, 24) } else { g.rng.below(4) };
+            for k in 0..nblocks {
                 let name = if g.rng.chance(3, 4) { "rust" } else { "cpp" };
                 let braced = g.rng.chance(1, 2);
                 let rich = g.rng.chance(1, 3);
